@@ -164,6 +164,18 @@ static void build_table()
 				add("Interpolation_2D::Interpolate(x)", l, s, [=]() { Interpolation_2D I(x, V{0, 1, 2}, VV(4, V(3, 1.0))); return I(q, 1.0); });
 				add("Interpolation_2D::Interpolate(y)", l, s, [=]() { Interpolation_2D I(V{0, 1, 2}, x, VV(3, V(4, 1.0))); return I(1.0, q); });
 			}
+	// the same domain test on a table given in other units (x_dim): the tolerance is 1 % of the edge interval of the converted abscissae
+	for(double xd : {1e-3, 1e3, 7.0})
+		for(int end = 0; end < 2; end++)
+			for(double f : {0.0, 0.005, 0.0099, 0.0101, 0.1, 5.0})
+			{
+				V x{0, 1, 2, 3.5}, y{1, 3, 2, 5};
+				double h = (end ? 1.5 : 1.0) * xd, q = end ? 3.5 * xd + f * h : -f * h;
+				Side s = f < 0.01 ? ACCEPT : REJECT;
+				std::string l = "x_dim=" + mc::dec(xd) + "," + (end ? "right" : "left") + ",outside_by=" + mc::dec(f) + "h";
+				add("Interpolation(x_dim)::Interpolate", l, s, [=]() { Interpolation I(x, y, xd, 2.0); return I(q); });
+				add("Interpolation(x_dim)::Integrate", l, s, [=]() { Interpolation I(x, y, xd, 2.0); return I.Integrate(1.5 * xd, q); });
+			}
 	add("Interpolation::Local_Minimum", "x1<x2", ACCEPT, []() { Interpolation I(V{0, 1, 2, 3}, V{1, 3, 2, 5}); return I.Local_Minimum(0.5, 2.5); });
 	add("Interpolation::Local_Minimum", "x1==x2", ACCEPT, []() { Interpolation I(V{0, 1, 2, 3}, V{1, 3, 2, 5}); return I.Local_Minimum(1.5, 1.5); });
 	add("Interpolation::Local_Minimum", "x1>x2", REJECT, []() { Interpolation I(V{0, 1, 2, 3}, V{1, 3, 2, 5}); return I.Local_Minimum(2.5, 0.5); });
@@ -317,6 +329,10 @@ static void build_table()
 		{
 			Side s = (nd == 0 || nd == 2) ? ACCEPT : REJECT;
 			add("Import_Table", "columns=2,dimensions=" + std::to_string(nd), s, [=]() { std::string f = dir + "/c10_tab_" + std::to_string(getpid()); Export_Table(f, VV{{1, 2}, {3, 4}, {5, 6}}); auto t = Import_Table(f, V(nd, 2.0)); unlink(f.c_str()); return t[2][1]; });
+			if(nd == 2)
+				for(int bad_row = 0; bad_row < 3; bad_row++)
+					for(int len : {1, 3})
+						add("Export_Table", "ragged,row=" + std::to_string(bad_row) + ",length=" + std::to_string(len) + ",dimensions=2", REJECT, [=]() { std::string f = dir + "/c10_tabr_" + std::to_string(getpid()); VV t{{1, 2}, {3, 4}, {5, 6}}; t[bad_row].assign(len, 7.0); Export_Table(f, t, V(2, 2.0)); unlink(f.c_str()); return 0.0; });
 			add("Export_Table", "columns=2,dimensions=" + std::to_string(nd), s, [=]() { std::string f = dir + "/c10_tabx_" + std::to_string(getpid()); Export_Table(f, VV{{1, 2}, {3, 4}, {5, 6}}, V(nd, 2.0)); unlink(f.c_str()); return 0.0; });
 		}
 	}
